@@ -215,6 +215,66 @@ def run(tier: str) -> int:
                     rep.violation(f"contract:{d['op']}:{q}", f"{d['op']}: a recorded call violates '{q}' of its contract ({e['info']})", {"event": e})
     finally:
         shutil.rmtree(tmp, ignore_errors=True)
+    # ---- (2b) "for all generator states": long streams through the SAME operation objects -----------------------------
+    nlong = 30000 if tier == "quick" else 400000
+    cell = random_cell(rs)
+    at1 = molecule(rs, cell)
+    for opname, K in (("Ball", Ball), ("Sphere", Sphere), ("Box", Box)):
+        s_ = float(10 ** rs.uniform(-2, 0))
+        op = K(s_)
+        ctx = ctx_for(at1, int(rs.randint(1, 2**31)))
+        worst_ratio = 0.0
+        for _ in range(nlong):
+            d = np.asarray(op.calculate(ctx), float)
+            nrm = float(np.linalg.norm(d))
+            if opname == "Ball":
+                bad = nrm > s_ * (1 + 1e-12)
+            elif opname == "Sphere":
+                bad = abs(nrm - s_) > 1e-12 * s_
+            else:
+                bad = bool(np.any(np.abs(d) > s_ * (1 + 1e-12)))
+            worst_ratio = max(worst_ratio, nrm / s_)
+            if bad or not np.all(np.isfinite(d)):
+                rep.violation(f"contract:{opname}:long-stream", f"{opname}({s_:.4g}): after many proposals from one generator stream a proposal violates its bound (|d| / step = {nrm / s_:.6f}, d = {d.ravel().tolist()})", {"op": opname, "step": s_})
+                break
+        rep.count(("long-stream", opname), nontrivial=True)
+    # ---- (2c) operation objects are used again and again: a proposal is a value; an earlier result never changes, and what
+    # one call returns does not depend on what other operations were asked before ------------------------------------------
+    nseq = 600 if tier == "quick" else 6000
+    s_ = 0.1
+    pool = {"rotation": Rotation(), "ball": Ball(s_), "box": Box(s_), "rotation+ball": Rotation() + Ball(s_), "ball+rotation": Ball(s_) + Rotation(), "translation_rotation": TranslationRotation()}
+    pool["shared"] = pool["rotation"] + pool["ball"]  # a composite that shares its parts with the stand-alone entries
+    kept = []  # (name, returned array, copy at return time)
+    for it in range(nseq):
+        name = list(pool)[int(rs.randint(len(pool)))]
+        cell = random_cell(rs)
+        at = molecule(rs, cell)
+        if rs.rand() < 0.5:
+            at = at[:1]  # a one-atom group
+        seed = int(rs.randint(1, 2**31))
+        ctx = ctx_for(at, seed)
+        pos0 = at.get_positions()
+        try:
+            raw = pool[name].calculate(ctx)
+        except Exception as ex:  # noqa: BLE001
+            rep.violation(f"raise:sequence:{name}:{type(ex).__name__}", f"{name}.calculate raised {ex!r} in a sequence of calls on re-used operation objects", {"natoms": len(at)})
+            continue
+        d = np.broadcast_to(np.asarray(raw, float), pos0.shape)
+        rep.count(("sequence", it))
+        mass = at.get_masses()
+        com_shift = float(np.abs((mass @ (pos0 + d)) / mass.sum() - (mass @ pos0) / mass.sum()).max())
+        if name == "rotation" and com_shift > TOL * max(1.0, np.abs(pos0).max()):
+            rep.violation("sequence:Rotation:com_kept", f"Rotation (object used {it} calls into a sequence with other operations, group of {len(at)} atom(s)) moved the centre of mass by {com_shift:.3e}", {"natoms": len(at), "call": it})
+        if name in ("rotation+ball", "ball+rotation", "shared") and len(at) == 1 and float(np.linalg.norm(d[0])) > s_ * (1 + 1e-9):
+            rep.violation("sequence:composite:one-atom-norm", f"{name} on a one-atom group (rotation part = zero displacement) returned |d| = {float(np.linalg.norm(d[0])):.6f} > ball radius {s_}", {"call": it})
+        if name in ("ball", "box") and float(np.abs(d).max()) > s_ * (1 + 1e-12):
+            rep.violation(f"sequence:{name}:bound", f"{name} exceeded its step size in a sequence of calls", {"call": it})
+        for nm, arr, cp in kept:
+            if not np.array_equal(np.asarray(arr, float), cp):
+                rep.violation("sequence:earlier-result-changed", f"a displacement returned earlier by '{nm}' changed when '{name}' was called later (results are shared, not values)", {"earlier": nm, "later": name, "call": it})
+                kept = []
+                break
+        kept = (kept + [(name, raw, np.array(raw, float, copy=True))])[-6:]
     rep.sample({"event": {k: v for k, v in events[0].items() if k != "info"}})
     rep.sample({"event": {k: v for k, v in events[7].items() if k != "info"}})
     # ---- (3) symmetry -----------------------------------------------------------------------------------------------
